@@ -80,6 +80,11 @@ def jobs(tier, seed):
                                     dict(kind='rows', method=method, path=path, order=order, zk=zk, p=0, ratio=ratio, cplx=cplx)))
         for zk in ('z0', 'zhalf'):
             out.append(('e2e-o%d-%s' % (order, zk), dict(kind='e2e', method='above', path='radial', order=order, zk=zk, p=0, ratio=4.0, cplx=False)))
+        if order in (2, 4):
+            # the whole __call__ (not only the rows inside _lim) with complex-valued g, from below, along the spiral
+            for method, path in ((('below', 'radial'), ('above', 'spiral'), ('below', 'spiral')) if order == 2 else (('below', 'radial'),)):
+                out.append(('e2e-o%d-zhalf-%s-%s-cplx' % (order, method, path),
+                            dict(kind='e2e', method=method, path=path, order=order, zk='zhalf', p=0, ratio=4.0, cplx=True)))
     for p in (1, 2, 3):
         for zk in ('z0', 'zhalf'):
             for method in ('above', 'below'):
@@ -99,7 +104,7 @@ def run_job(job, kind, method, path, order, zk, p, ratio, cplx):
     if kind == 'rows':
         return rows(job, lim, method, path, order, zk, ratio, cplx)
     if kind == 'e2e':
-        return e2e(job, lim, order, zk)
+        return e2e(job, lim, order, zk, method, path, cplx)
     return residue(job, lim, p, zk, method, order)
 
 
@@ -303,14 +308,15 @@ def rows(job, lim, method, path, order, zk, ratio, cplx):
     job.twin('degree order+2 visible', box2 + [d2 != 0])
 
 
-def e2e(job, lim, order, zk):
+def e2e(job, lim, order, zk, method='above', path='radial', cplx=False):
     z0 = _z0(zk)
-    f, names, coefs = poly_model(order, False, z0)
+    f, names, coefs = poly_model(order, cplx, z0)
     box = [z3.And(z3.Real(nm) >= -1, z3.Real(nm) <= 1) for nm in names]
 
     def harness():
         with tr.traced(), sn.abstract_division(products=True), cm.quiet():
-            L = lim.Limit(f, step=4.0 ** -(order + 2), order=order, full_output=True, num_steps=order + 3, step_ratio=4.0)
+            L = lim.Limit(f, step=4.0 ** -(order + 2), order=order, full_output=True, num_steps=order + 3, step_ratio=4.0,
+                          method=method, path=path)
             return L(z0)
     ex = sn.Explorer(harness, assumptions=box, max_paths=64, timeout_ms=20000)
     paths = list(ex.paths())
@@ -321,9 +327,10 @@ def e2e(job, lim, order, zk):
             job.violation('raises', dict(key='C18:e2e:raises:%s' % type(p.exc).__name__, kind='e2e', exc=repr(p.exc)[:300]))
             continue
         val, info = p.result
-        v = cm.flat_list(val)[0]
-        d = sn.lift(v) - sn.lift(coefs[0])
-        job.prove('Limit(f)(z0) == phi(0)', z3.And(d <= tau, -d <= tau), p.conds(),
+        v = sn.as_symc(cm.flat_list(val)[0])
+        wre, wim = _parts(coefs[0])
+        dr, di = sn.lift(v.re) - wre, sn.lift(v.im) - wim
+        job.prove('Limit(f)(z0) == phi(0)', z3.And(dr <= tau, -dr <= tau, di <= tau, -di <= tau), p.conds(),
                   dict(key='C18:e2e:limit-missed', kind='e2e', names=names, stronger_than_property=True))
         e = cm.flat_list(info.error_estimate)[0]
         job.prove('error_estimate >= 0', sn.lift(e) >= 0, p.conds(), dict(key='C18:e2e:negative-error', kind='e2e'))
